@@ -155,6 +155,14 @@ static void reader_step(const item_t *it) {
 		if (item_get(it, "reinit", 0)) return;
 	}
 	if (!g_committed) return; /* the available-size query is only specified once something was written */
+	if (item_get(it, "probe", 0)) {
+		/* the read-only validity probe: whatever it answers, the cursor is the caller's */
+		r_buf_rpos_t before = r->rpos;
+		(void)r_buf_rpos_check_fast(RBUF, &r->rpos);
+		sim_probe("c19.cursor_probe");
+		if (0 != memcmp(&before, &r->rpos, sizeof(before))) { sim_violation("rb-probe-moved-cursor", "reader %d: r_buf_rpos_check_fast() changed the cursor it was asked to look at (index %zu->%zu, offset %zu->%zu, round %zu->%zu): the loss it swallowed is never reported", id,
+		    before.iov_index, r->rpos.iov_index, before.iov_off, r->rpos.iov_off, before.round_num, r->rpos.round_num); return; }
+	}
 	round_before = r->rpos.round_num;
 	g_kf_pre = kf_precondition(&r->rpos);
 	if (g_kf_pre) sim_probe("c19.kf1_precondition");
@@ -320,6 +328,7 @@ static void c19_gen(plan_t *p, rng_t *r, int tier) {
 			if (rng_chance(r, 250)) item_set(&op->it, "lim", 1 + (long long)rng_below(r, (uint64_t)size + 8));
 			if (rng_chance(r, 180)) item_set(&op->it, "iovn", 1 + (long long)rng_below(r, 4));
 			item_set(&op->it, "maxlim", rng_chance(r, 400));
+			item_set(&op->it, "probe", rng_chance(r, 300));
 			item_set(&op->it, "adv", rng_chance(r, 550) ? 0 : 1 + (long long)rng_below(r, 3));
 			item_set(&op->it, "advn", (long long)rng_below(r, 1u << 20));
 			item_set(&op->it, "back", rng_chance(r, 500) ? 0 : (long long)rng_below(r, (uint64_t)size));
